@@ -278,8 +278,16 @@ pub fn run(args: &Args) -> i32 {
         use crate::refmodel::midas::BankFmt;
         let words = model_stream(&[1, 7, 6, 3, 1], 2);
         let nbytes = crate::props::c20::encode_words(&words).len() as u64;
-        rep.run("program-level-cuts", (nbytes + 1) * 3, 120, true, "alpha-g-chronobox-timestamps on a 5-region stream (edges, scaler blocks) cut at every byte position into two banks x {1 bank per event in 3 files, 2 banks per event in 1 file, 3 pieces (second cut 7 bytes later) in 2 files}: rows and times against the reference", |idx, loc| {
-            let cut = (idx / 3) as usize;
+        let words_b = model_stream(&[2, 6, 1, 7, 1], 1);
+        let nb2 = crate::props::c20::encode_words(&words_b).len();
+        rep.run("program-level-cuts", (nbytes + 1) * 4, 120, true, "alpha-g-chronobox-timestamps on a 5-region stream (edges, scaler blocks) cut at every byte position into two banks x {1 bank per event in 3 files, 2 banks per event in 1 file, 3 pieces (second cut 7 bytes later) in 2 files, two boards whose pieces share events (second board cut elsewhere)}: rows and times against the reference", |idx, loc| {
+            let cut = (idx / 4) as usize;
+            if idx % 4 == 3 {
+                let lay = Layout { cuts: vec![vec![cut], vec![(cut * 7 + 3) % (nb2 + 1)]], banks_per_event: 2, files: 2, fmt: BankFmt::B32, lz4: false, decoys: false };
+                conform(&[words.clone(), words_b.clone()], &lay, json!({"cut_at": cut, "layout": "two boards sharing events"}), &format!("c07q{idx}"), loc);
+                return;
+            }
+            let idx = idx / 4 * 3 + idx % 4;
             let lay = match idx % 3 {
                 0 => Layout { cuts: vec![vec![cut]], banks_per_event: 1, files: 3, fmt: BankFmt::B32, lz4: false, decoys: false },
                 1 => Layout { cuts: vec![vec![cut]], banks_per_event: 2, files: 1, fmt: BankFmt::B16, lz4: false, decoys: true },
